@@ -27,6 +27,10 @@ class Property:
         """-> list of case lines (str)."""
         raise NotImplementedError
 
+    def model_line(self, line, impl_out):
+        """the line given to the model; may carry oracle values read back from the implementation's run"""
+        return line
+
     def canon_impl(self, line, out):
         return vc.canon_default(out)
 
@@ -143,7 +147,7 @@ def run_check(pid, tier, seed):
         t1 = time.time()
         impl = vc.run_impl(cases)
         t2 = time.time()
-        model = vc.run_model(cases)
+        model = vc.run_model([prop.model_line(c, i) for c, i in zip(cases, impl)])
         t3 = time.time()
         vc.log("[%s] %d cases: impl %.1fs model %.1fs" % (pid, len(cases), t2 - t1, t3 - t2))
         tags = {}
